@@ -3,7 +3,6 @@ package main
 import (
 	"go/types"
 
-	"golang.org/x/tools/go/ssa"
 )
 
 func init() {
@@ -69,12 +68,21 @@ func propC06(a *Analysis, r *Registry) {
 					env.Set(k, v, nil)
 				}
 				b.EqRF(rB, "stats.(HypergeometicDist).sum/result", b.pos(fn), rv, vars["sum"], "returns the accumulated sum")
-				// loop bound dk <= k-L
+				// loop bound dk <= k-L: however the loop is written, another iteration is run only
+				// while dk <= k-L, and any further condition for going on (the truncation of
+				// negligible terms) does not involve dk
 				ph := X.phiOf[vars["dk"].SingleAtom().ID]
-				if ifi, ok := ph.Block().Instrs[len(ph.Block().Instrs)-1].(*ssa.If); ok {
-					b.Eq(rB, "stats.(HypergeometicDist).sum/bound", a.W.InstrPos(ifi), fc.Val(ifi.Cond), env, "dk<=k-maxint(0, d.Draws+d.K-d.N)")
-				} else {
-					r.Fail(rB, "stats.(HypergeometicDist).sum/bound", b.pos(fn), "loop header does not test dk <= k-L")
+				cont := fc.ContinueCond(ph.Block())
+				bound := env.MustParse("dk<=k-maxint(0, d.Draws+d.K-d.N)")
+				past := X.SimplifyUnder(cont, []Assumption{{Cond: bound, True: false}})
+				within := X.SimplifyUnder(cont, []Assumption{{Cond: bound, True: true}})
+				switch {
+				case !past.Equal(X.S.False()):
+					r.Fail(rB, "stats.(HypergeometicDist).sum/bound", b.pos(fn), "the loop can go on past dk <= k-L: continues while "+clip(cont.String(), 300))
+				case len(FindAtomID(within, vars["dk"].SingleAtom().ID)) > 0:
+					r.Fail(rB, "stats.(HypergeometicDist).sum/bound", b.pos(fn), "the loop stops on a further condition on dk besides dk <= k-L: "+clip(within.String(), 300))
+				default:
+					r.OK(rB, "stats.(HypergeometicDist).sum/bound", b.pos(fn), "another term is added only while dk <= k-L (besides the truncation of negligible terms)")
 				}
 			}
 		})
